@@ -242,6 +242,13 @@ func c17Rules(p *core.Prog, r *core.Run) {
 		v := p.X(st.Val)
 		empty := core.HasFact(p.Facts(st.Block()), "==", `len\(.*\.ServerName\)`, `0`)
 		host := v.Op == "field" && v.Name == "host"
+		// cmp.Or(tc.ServerName, target.host): the first that is not empty
+		if v.Op == "call" && v.Name == "cmp.Or" {
+			if parts := variadicArgs(p, st.Val.(*ssa.Call).Call.Args[0]); len(parts) == 2 &&
+				parts[0].Op == "field" && parts[0].Name == "ServerName" && parts[1].Op == "field" && parts[1].Name == "host" {
+				empty, host = true, true
+			}
+		}
 		r.Check("C17.SNI", "worker:server-name", st.Parent() == m.worker && empty && host, p.InstrPos(st), "ServerName is set only when the caller left it empty (%v), to the dial target's host (%v)", empty, host)
 	}
 	r.Check("C17.SNI", "ServerName:stores", nSNI == 1, p.Pos(m.dial.Pos()), "exactly one store to ServerName (found %d)", nSNI)
@@ -425,7 +432,7 @@ func storesTo(p *core.Prog, fns []*ssa.Function, name string) []*ssa.Store {
 			for _, in := range b.Instrs {
 				if st, ok := in.(*ssa.Store); ok {
 					if fa, ok := st.Addr.(*ssa.FieldAddr); ok {
-						if v := fieldVar(fa); v != nil && v.Name() == name {
+						if v := fieldVar(fa); v != nil && p.FieldName(v) == name {
 							out = append(out, st)
 						}
 					}
